@@ -1,6 +1,6 @@
 SPECIFICATION Spec
-CONSTANTS Mode = "reverse"  Variant = "ok"  Family = "mixed"  List = { }  Steps = 3  PairMod = 1
-          Extra = { 1103, 1011, 1 }
+CONSTANTS Mode = "reverse"  Variant = "ok"  Family = "list"  List = { 1050107, 2110109 }  Steps = 3  PairMod = 1
+          Extra = { 1103, 1011 }
 INVARIANT TypeOK
 INVARIANT WallsHold
 INVARIANT ReverseExact
